@@ -115,7 +115,10 @@ func storeCase(c lib.Case) (lib.Out, any) {
 	st := filesystem.NewStorage(fs, cache.NewObjectLRUDefault())
 	xw := &extWriter{fs, map[int64]bool{}}
 	var handles []*index.Index
-	var outs []lib.Out
+	var outs, exts []lib.Out
+	hasExt := func(idx *index.Index) lib.Out {
+		return lib.Bool(idx.Cache != nil || idx.ResolveUndo != nil || idx.EndOfIndexEntry != nil)
+	}
 	get := func(op lib.Case) (*index.Index, int) {
 		h := int(op.I("h"))
 		if h < 0 || h >= len(handles) {
@@ -157,17 +160,27 @@ func storeCase(c lib.Case) (lib.Out, any) {
 				p, _ := y.([]any)
 				es = append(es, &index.Entry{Name: nameOf(lib.Case{"x": p[0]}.I("x")), Hash: hashOf(lib.Case{"x": p[1]}.I("x")), Mode: 0o100644})
 			}
-			xw.write(es)
+			if op.Bool("ext") {
+				// what git writes after write-tree: a cached-tree extension (here: one invalidated root entry)
+				xw.writeExt(es, append([]byte("TREE\x00\x00\x00\x06"), []byte("\x00-1 0\n")...))
+			} else {
+				xw.write(es)
+			}
 		case "extdelete":
 			_ = fs.Remove("index")
+		case "drop":
+			if h, _ := get(op); h != nil {
+				h.Cache, h.ResolveUndo, h.EndOfIndexEntry = nil, nil, nil
+			}
 		}
 		view, err := st.Index()
 		must(err)
 		disk, err := decodeDisk(fs)
 		must(err)
 		outs = append(outs, lib.List(pairs(view), pairs(disk)))
+		exts = append(exts, lib.List(hasExt(view), hasExt(disk)))
 	}
-	return lib.List(outs...), nil
+	return lib.List(lib.List(outs...), lib.List(exts...)), nil
 }
 
 // ---------------------------------------------------------------- porcelain with faults
